@@ -132,16 +132,22 @@ class CliRules:
             nm = '$atoi%d' % n['_id']
             st.sym[nm] = (-(1 << 63), (1 << 63) - 1)
             endp = args[1] if len(args) > 1 else NULL
-            outs = []
-            for rangeerr in (False, True):
-                s = st.copy() if rangeerr else st
-                if endp[0] == 'p':
-                    s.mem[(endp[1], endp[2])] = ('ptop', 'strtol-end', False)
-                if rangeerr:
-                    s.mem[(ERRNO, ())] = C(34)      # ERANGE
-                    s.note((nloc(n), 'strtol: out of range'))
-                outs.append((s, sym(nm)))
-            return outs
+            src = args[0]
+            if endp[0] == 'p':
+                # *endptr = start + (number of characters consumed)
+                if src[0] == 'p' and src[2] and not isinstance(src[2][-1], str):
+                    kn = '$consumed%d' % n['_id']
+                    st.sym[kn] = (0, (1 << 31) - 1)
+                    last = src[2][-1]
+                    st.mem[(endp[1], endp[2])] = P(src[1], src[2][:-1] + (binop('+', C(last) if isinstance(last, int) else last, sym(kn), st.sym),))
+                else:
+                    st.mem[(endp[1], endp[2])] = ('ptop', 'strtol-end', False)
+            # errno is written only when the value is out of range: a cell nobody has written since the parse began stays that way
+            # (a test of it then reads what an earlier operation left), a written one may now hold ERANGE as well
+            old = st.mem.get((ERRNO, ()))
+            if old is not None and old != UNINIT:
+                st.mem[(ERRNO, ())] = join(old, C(34), st.sym)
+            return [(st, sym(nm))]
 
         def m_vecsize(I, st, fr, n, this, args, an):
             if this is not None and this[0] == 'p' and isinstance(this[1], str) and this[1].startswith('G:'):
